@@ -6,7 +6,7 @@ Open Scope Z_scope.
 
 (* no whole-second instant strictly between prev and the result satisfies the expression *)
 Theorem C02_nft_least : forall f off prev ns,
-  wf_fields f = true -> -93600 <= off <= 93600 -> 0 <= prev <= max_nanos ->
+  wf_fields f = true -> -93600 <= off <= 93600 -> min_nanos <= prev <= max_nanos ->
   next_fire_time f off prev = Fire ns ->
   forall t', prev < t' < ns -> t' mod nanos = 0 -> ~ matches_at f (fixed_zone off) t'.
 Proof. intros f off prev ns Hwf Hoff. exact (nft_fixed_least f Hwf off Hoff prev ns). Qed.
@@ -14,7 +14,7 @@ Print Assumptions C02_nft_least.
 
 (* expiry iff no satisfying instant is left up to the int64-nanosecond limit (year 2262) *)
 Theorem C02_nft_expired_iff : forall f off prev,
-  wf_fields f = true -> -93600 <= off <= 93600 -> 0 <= prev <= max_nanos ->
+  wf_fields f = true -> -93600 <= off <= 93600 -> min_nanos <= prev <= max_nanos ->
   (next_fire_time f off prev = Expired <->
    forall t', prev < t' <= max_nanos -> t' mod nanos = 0 -> ~ matches_at f (fixed_zone off) t').
 Proof. intros f off prev Hwf Hoff. exact (nft_fixed_expired_iff f Hwf off Hoff prev). Qed.
@@ -22,7 +22,7 @@ Print Assumptions C02_nft_expired_iff.
 
 (* iterating enumerates every scheduled instant exactly once and in increasing order *)
 Theorem C02_nft_chain : forall f off prev n1 n2,
-  wf_fields f = true -> -93600 <= off <= 93600 -> 0 <= prev <= max_nanos ->
+  wf_fields f = true -> -93600 <= off <= 93600 -> min_nanos <= prev <= max_nanos ->
   next_fire_time f off prev = Fire n1 -> next_fire_time f off n1 = Fire n2 ->
   prev < n1 < n2 /\
   forall t', prev < t' < n2 -> t' mod nanos = 0 -> matches_at f (fixed_zone off) t' -> t' = n1.
